@@ -107,10 +107,11 @@ def learned_stream(rs, tier):
                              random_state=int(rs.randint(2 ** 31 - 1)), verbose=False), X.shape[1], None
         out.append(("learnspn", cfg, f, False))
     # more clusters requested than there are distinct rows: a clusterer may leave cluster ids unused
-    for i in range(16 if tier == "quick" else 120):
-        cfg = dict(kind=["bin", "cont", "cat", "bin"][i % 4], rows=["kmeans_mb", "rdc", "kmeans", "gmm"][i % 4], cols="rdc", leaf="mle",
-                   rows_n=int(rs.choice([3, 4, 5])), n=int(rs.choice([24, 60, 120])), d=int(rs.randint(2, 5)),
-                   distinct=int(rs.choice([2, 3, 4])), min_rows=int(rs.choice([2, 6])), min_cols=1, few_distinct=True)
+    for i in range(36 if tier == "quick" else 180):
+        nd = int(rs.choice([2, 3, 4]))
+        cfg = dict(kind=["bin", "cont", "cat", "bin"][i % 4], rows=["gmm", "kmeans_mb", "gmm", "rdc", "kmeans", "gmm"][i % 6], cols="rdc", leaf="mle",
+                   rows_n=nd + int(rs.choice([1, 2, 3])), n=int(rs.choice([24, 60, 120])), d=int(rs.randint(2, 5)),
+                   distinct=nd, min_rows=int(rs.choice([2, 6])), min_cols=1, few_distinct=True)
         def f(cfg=cfg):
             X, dists, doms = c05.gen_data(rs, cfg["kind"], cfg["n"], cfg["d"], offsets=True)
             X = X[rs.randint(0, cfg["distinct"], size=cfg["n"])]
